@@ -150,7 +150,7 @@ def _map(ctx, m):
         ctx.error('C17.D1', str(e))
 
 
-def _api(ctx, m, rule='C17.D2', only=None):
+def _api(ctx, m, rule='C17.D2', only=None, conversions_only=False):
     sites = 0
     for modname, fname in (('zincparser', '_parse_datetime'), ('jsonparser', 'parse_embedded_scalar'), ('grid_filter', '_parse_datetime')):
         if only and modname not in only:
@@ -233,6 +233,8 @@ def _api(ctx, m, rule='C17.D2', only=None):
                           '`%s` before it is written' % norm(bad[0])[:60],
                           'dump_date_time converts the value instead of emitting isoformat() of the value itself', file=F,
                           line=bad[0].lineno, engine='E9')
+        elif conversions_only:
+            pass            # (the caller only asks whether the value is converted before it is written)
         elif tzn and not any('%s.isoformat()' % a in r for r in rets) and any('isoformat' not in r for r in rets):
             ctx.violation(rule, '%s::dump_date_time' % F, '; '.join(rets),
                           'the written stamp is not isoformat() of the value (or lacks its zone name)',
@@ -499,6 +501,33 @@ def zone_applied(ctx, m, rule, modname, fname, style, catches=False):
                               % missing[0],
                               'timezone() raises %s for a name this host cannot map; the handler around the look-up catches only %s'
                               % (missing[0], sorted(caught) or 'nothing'), file=F_, line=(tr_ or site).lineno, engine='E7')
+    # astimezone() goes through UTC: for a stamp on 0001-01-01 (positive offset) or 9999-12-31 (negative offset) the UTC
+    # value is out of range and it raises OverflowError; the reader then keeps the stamp as written
+    if conv is not None and catches:
+        tr2 = None
+        p_, ch_ = getattr(conv, '_parent', None), conv
+        while p_ is not None and p_ is not fn:
+            if isinstance(p_, ast.Try) and ch_ in p_.body:
+                tr2 = p_
+                break
+            ch_, p_ = p_, getattr(p_, '_parent', None)
+        caught2, bare2 = set(), False
+        if tr2 is not None:
+            for h in tr2.handlers:
+                if h.type is None:
+                    bare2 = True
+                else:
+                    caught2 |= {x.strip() for x in norm(h.type).strip('()').split(',')}
+        if bare2 or caught2 & {'OverflowError', 'ArithmeticError', 'Exception', 'BaseException'}:
+            ctx.ob(rule, '%s: the conversion sits in a handler that also catches the OverflowError of astimezone() at the ends of '
+                         'the calendar' % fname, True, '%s:%d' % (F_, conv.lineno))
+        else:
+            ctx.violation(rule, con, norm(conv),
+                          'the well-formed stamp 0001-01-01T00:00:00+10:05 Sydney (or 9999-12-31T20:00:00-10:00 Honolulu): '
+                          'astimezone() converts through UTC, the UTC value is outside datetime\'s range, OverflowError is raised '
+                          '-- and nothing catches it here, so the whole document is rejected instead of the stamp being kept',
+                          'the zone conversion `%s` is not inside a handler that catches OverflowError (handlers: %s)'
+                          % (norm(conv)[:50], sorted(caught2) or 'none'), file=F_, line=conv.lineno, engine='E7')
     tzname = sc.bind.get('tzname')
     if tzs is not None and src_guard_ok:
         gs = _guards(fn, tzs)
